@@ -64,6 +64,9 @@ def gen_mmspec(rng, k=0, rich=True):
         c = rng.choice(sp.classes)
         sp.feats.append(dict(owner=c['name'], name='ident', kind='attr', type=rng.choice(['EString', 'EString', 'EInt']), many=False, ordered=True, unique=True,
                              cont=False, opp=None, id=True, default_lit=None))
+        # (an id may have a default, and an object may carry exactly that value: it is then not written)
+        if sp.feats[-1]['type'] == 'EString' and rng.random() < .3:
+            sp.feats[-1]['default_lit'] = 'id0'
     # containment (at least one many-valued so that forests can grow)
     for i in range(rng.randint(2, 4)):
         many = True if i == 0 else rng.random() < .6
